@@ -11,6 +11,7 @@ CONSTANTS
   PREC = 10
   UNBOND = 1
   HOLDOPS = {}
+  HOOKED = TRUE
   TMAX = 12
   XMAX = 12
   SMAX = 240
